@@ -48,7 +48,16 @@ static ref::Header synth_header(Ctx &c) {
 }
 
 static Input gen_input(Ctx &c, const gen::ZFile *base) {
-    Input in; uint64_t mode = c.draw(9);
+    Input in; uint64_t mode = c.draw(10);
+    if (mode == 10 && base) {
+        // a checksum-valid zstd file whose dictionary chunk decodes to something zstd itself refuses to load:
+        // the dictionary magic 37 A4 30 EC followed by arbitrary bytes (or a truncated real dictionary)
+        ref::WriteSpec w; w.comp = ref::COMP_ZSTD; w.hash_type = (int)base->h.hash_type; w.chunk_hash_type = (int)base->h.chunk_hash_type; w.level = 1;
+        w.dict = {0x37, 0xA4, 0x30, 0xEC}; Bytes junk = c.bytes(c.draw(200)); w.dict.insert(w.dict.end(), junk.begin(), junk.end());
+        for (size_t i = 1; i < base->plain.size(); i++) w.chunks.push_back(base->plain[i]);
+        in.file = ref::write(w).file; in.desc = "valid zstd file whose dictionary chunk holds the zstd dictionary magic + " + std::to_string(junk.size()) + " arbitrary bytes";
+        ref::ParseResult pr = ref::parse(in.file); in.gate_passed = pr.h.checksum_ok; return in;
+    }
     if (mode <= 3 || !base) {
         ref::Fields F = ref::fields_from(synth_header(c)); std::string md; size_t nm = c.draw(2);
         for (size_t i = 0; i < nm; i++) md += gen::mutate_field(c, F) + "; ";
